@@ -83,6 +83,58 @@ EXEMPT_SLOTS = {
 QUALIFIER_ATTRS = ("schema", "_schema")
 
 
+def _is_operand(p) -> bool:
+    """a rendered child: a slot, or a hole printing text that was produced by rendering children (e.g. items unpacked
+    from a list of rendered arguments)"""
+    if isinstance(p, SlotP):
+        return True
+    if not isinstance(p, Hole):
+        return False
+    import dataclasses
+    seen = 0
+
+    def rec(x, d=0):
+        nonlocal seen
+        seen += 1
+        if d > 40 or seen > 4000 or isinstance(x, (str, int, float, bool, type(None))):
+            return False
+        if isinstance(x, SlotP):
+            return True
+        if isinstance(x, (tuple, list, frozenset)):
+            return any(rec(i, d + 1) for i in x)
+        if dataclasses.is_dataclass(x):
+            return any(rec(getattr(x, f.name), d + 1) for f in dataclasses.fields(x) if f.name not in ("src", "cond", "ctx"))
+        return False
+    return rec(p.value)
+
+
+# operator-shaped renderers whose level and wrap rule were confirmed by reading (keyed by the class that owns the rendering)
+KNOWN_KEYWORD_CRITERIA = {
+    "All": "ALL <subquery/term>: prefix keyword over a parenthesised operand, comparison level",
+    "AtTimezone": "<term> AT TIME ZONE '<zone>': postfix keyword, comparison level",
+    "BetweenCriterion": "<term> BETWEEN a AND b: comparison level",
+    "ContainsCriterion": "<term> IN (<...>): comparison level, container parenthesised",
+    "NullCriterion": "<term> IS NULL: postfix keyword, comparison level",
+    "PeriodCriterion": "<term> FROM a TO b / BETWEEN a AND b (temporal): comparison level",
+}
+
+
+def render_owner(c: ClassInfo, sk) -> str:
+    """most-derived class of c's MRO that contributes a function to c's rendering"""
+    owners = set()
+    for part, _, _ in walk_parts(sk):
+        src = getattr(part, "src", ()) or ()
+        if not src:
+            continue
+        for q in (src[0],) + tuple(src[3] if len(src) > 3 else ()):
+            if "." in q:
+                owners.add(q.rsplit(".", 1)[0])
+    for k in c.mro:
+        if k.qualname in owners:
+            return k.qualname
+    return c.resolve("get_sql").cls.qualname
+
+
 # shape classification of a Term class's own rendering
 def shape_of(program: Program, c: ClassInfo):
     sk, _ = render(program, c, attrs={"alias": Const(None)}, ctx=CtxV.incoming().with_(with_alias=Const(False)))
@@ -95,7 +147,7 @@ def shape_of(program: Program, c: ClassInfo):
             shapes.add("empty")
             continue
         first, last = flat[0], flat[-1]
-        fs, ls = isinstance(first, SlotP), isinstance(last, SlotP)
+        fs, ls = _is_operand(first), _is_operand(last)
         if fs and ls and len(flat) > 1:
             shapes.add("infix")
         elif fs and len(flat) == 1:
@@ -234,11 +286,15 @@ def check(program: Program, run: Run) -> None:
         elif shp in ("atom", "passthrough", "empty"):
             class_kind[c.qualname] = "atom"
             known = True
-        elif shp in ("postfix", "infix"):
+        elif shp in ("postfix", "infix") and render_owner(c, sk) in KNOWN_KEYWORD_CRITERIA:
             class_kind[c.qualname] = f"keyword-criterion({shp}, level comparison)"
             known = True
             if dc not in [p for p, _ in postfix_parents]:
                 postfix_parents.append((dc, c))
+        elif shp in ("postfix", "infix", "prefix"):
+            dc = render_owner(c, sk)
+            class_kind[c.qualname] = f"UNCLASSIFIED {shp} operator rendered by {dc}"
+            known = False
         else:
             class_kind[c.qualname] = f"UNCLASSIFIED {shp}"
             known = False
